@@ -75,6 +75,7 @@ def explicit_rows(T):
 def make_executor(src, reg):
     ex = Executor(src, reg, prop=PID)
     ex.inline.update(["compute_step"])
+    ex.inline_private_methods = True
     return ex
 
 
@@ -222,12 +223,14 @@ def check_rk_step(ex, reg, src, name, m, sd_keys=()):
     return selfobj
 
 
-def check_algebraic_system(ex, reg, src, name, m):
+def check_algebraic_system(ex, reg, src, name, m, plain_fields=None):
     T, Tf = tab(m["tableau_intermediate"]), tab(m["tableau_final"])
     n = len(T.rows)
     fi = src.func(FT, "RungeKuttaIntegrator.algebraic_system")
     st = State()
     selfobj = make_rk_self(st, m, T, Tf)
+    for k_, v_ in (plain_fields or {}).items():
+        st.obj(selfobj).fields.setdefault(k_, v_)
     K = ConcVec([LinComb.sym("K%d" % i) for i in range(n)])
     t, h, y = Poly.sym("t"), Poly.sym("h"), LinComb.sym("y")
     consts = st.new_obj("dict", "dict", items={})
@@ -246,6 +249,27 @@ def check_algebraic_system(ex, reg, src, name, m):
         got = list(res.items) if isinstance(res, ConcVec) else None
         reg.ground(pre + "defining-stage-system" + ("#path%d" % k if len(paths) > 1 else ""), "post", "algebraic_system", (not isinstance(res, Raised)) and got == want, backend="lincomb-exact",
                    detail="F(K)_i == K_i - rhs(t + c_i h, y + h sum_j a_ij K_j) for all %d stages (fully implicit sum over all j), on every path" % n)
+        if isinstance(res, Raised):
+            continue
+        # ... and again on the same object with another step size, time, state and stage values: the residual is that of the *second* call's
+        # arguments (nothing the first evaluation left on the object -- scaled coefficients, stage states -- enters it)
+        K2 = ConcVec([LinComb.sym("L%d" % i) for i in range(n)])
+        t2, h2, y2 = Poly.sym("t2"), Poly.sym("h2"), LinComb.sym("y2")
+        want2 = []
+        for i in range(n):
+            acc = LinComb.zero()
+            for j in range(n):
+                acc = acc + K2.items[j].scale(h2 * T.rows[i][1 + j])
+            want2.append(K2.items[i] - LinComb.app("rhs", t2 + h2 * T.rows[i][0], y2 + acc))
+        saved, ex.opaque_nondet = getattr(ex, "opaque_nondet", False), True
+        try:
+            again = ex.call_function(fi, [selfobj, K2, UFunc("rhs", "lincomb"), t2, y2, h2, consts], {}, s_.fork(), ctx)
+        finally:
+            ex.opaque_nondet = saved
+        for k2, (s2, res2) in enumerate(again):
+            got2 = list(res2.items) if isinstance(res2, ConcVec) else None
+            reg.ground(pre + "second-evaluation-on-the-same-object-uses-its-own-arguments#%d.%d" % (k, k2), "post", "algebraic_system", got2 == want2, backend="lincomb-exact",
+                       detail="after F(K; t, y, h) the same object evaluates F(L; t2, y2, h2) == L_i - rhs(t2 + c_i h2, y2 + h2 sum_j a_ij L_j)")
 
 
 def check_call_skeleton(ex, reg, src, implicit, adaptive):
@@ -375,7 +399,7 @@ def run(tier):
                 check_rk_step(ex, reg, src, name, m, sd_keys=built.get("solver_dict_keys") or ())
                 if not m["derived"]["explicit"]:
                     ex = make_executor(src, reg)
-                    check_algebraic_system(ex, reg, src, name, m)
+                    check_algebraic_system(ex, reg, src, name, m, plain_fields=built.get("plain_fields"))
             else:
                 ex = make_executor(src, reg)
                 check_splitting(ex, reg, src, name, m)
